@@ -520,6 +520,161 @@ fn interleaved_part(out: &mut Outcome) {
     out.set("interleaved_simulations", json!({"pairs": pairs, "steps": steps, "thread_sharing": MODES, "rule": "two simulations with different seeds, prices and AGENT PARAMETERS (and ticks 1/5 or 2/2) share one thread in three ways; each must equal the same simulation run alone on a fresh thread"}));
 }
 
+/// A short simulation run right after a LONG one on the same thread (the long one dropped
+/// first), and a simulation during which every market-data view is read ONCE: both must equal
+/// the plain run on a fresh thread. (Buffers recycled past a capacity threshold, per-thread pools,
+/// and structures that recognise "unchanged since the last read" by a wrapping counter live here.)
+fn long_run_parts(out: &mut Outcome, thorough: bool) {
+    use bourse_book::types::Side;
+    let mut runs = 0u64;
+    let mut steps_total = 0u64;
+    // (a) short run after a long run
+    let short = |prelude: Option<u64>, multi: bool| -> Result<(u64, u64), String> {
+        let h = std::thread::spawn(move || {
+            util::subject(|| {
+                if let Some(n) = prelude {
+                    if !multi {
+                        let mut e = Env::new(0, 1, 100, true);
+                        let mut rng = Xoroshiro128StarStar::seed_from_u64(11);
+                        let mut a = SetAll { r: rnd_b(1), n: noise_b(1), m: mom_b(1) };
+                        for _ in 0..n {
+                            a.update(&mut e, &mut rng);
+                            e.step(&mut rng);
+                        }
+                    } else {
+                        let mut e: MarketEnv<2, 10> = MarketEnv::new(0, [1, 1], 100, true);
+                        let mut rng = Xoroshiro128StarStar::seed_from_u64(11);
+                        let mut a = MSetAll { r: mrnd_b(0, 1), n: mnoise_b(1, 1), m: mmom_b(1, 1) };
+                        for _ in 0..n {
+                            a.update(&mut e, &mut rng);
+                            e.step(&mut rng);
+                        }
+                    }
+                    // (the long simulation is dropped here)
+                }
+                if !multi {
+                    let mut e = Env::new(0, 1, 100, true);
+                    e.place_order(Side::Bid, 20, 9999, Some(98)).unwrap();
+                    e.place_order(Side::Ask, 20, 9999, Some(102)).unwrap();
+                    let mut rng = Xoroshiro128StarStar::seed_from_u64(5);
+                    let mut a = SetAll { r: rnd(1), n: noise(1), m: mom(1) };
+                    for _ in 0..30 {
+                        a.update(&mut e, &mut rng);
+                        e.step(&mut rng);
+                    }
+                    digest_env(&e)
+                } else {
+                    let mut e: MarketEnv<2, 10> = MarketEnv::new(0, [1, 1], 100, true);
+                    let mut rng = Xoroshiro128StarStar::seed_from_u64(5);
+                    let mut a = MSetAll { r: mrnd(0, 1), n: mnoise(1, 1), m: mmom(1, 1) };
+                    for _ in 0..30 {
+                        a.update(&mut e, &mut rng);
+                        e.step(&mut rng);
+                    }
+                    digest_menv(&e)
+                }
+            })
+        });
+        h.join().map_err(|_| "worker thread died".to_string())?
+    };
+    let long_lengths: &[u64] = if thorough { &[300, 1_100, 2_600, 5_000, 9_000] } else { &[300, 2_600, 5_000] };
+    for multi in [false, true] {
+        let fresh = short(None, multi);
+        runs += 1;
+        for &n in long_lengths {
+            runs += 1;
+            steps_total += n + 30;
+            let replay = json!({"scenario": "30-step simulation right after a long one on the same thread", "long_run_steps": n, "multi_asset": multi});
+            match (&fresh, &short(Some(n), multi)) {
+                (Ok(a), Ok(b)) => {
+                    if a != b {
+                        out.fail_other(
+                            "determinism/run-depends-on-earlier-simulation-on-the-thread",
+                            format!("a 30-step simulation gives {:?} on a fresh thread but {:?} right after an unrelated {}-step simulation on the same thread", a, b, n),
+                            replay,
+                        );
+                    }
+                }
+                (Err(m), _) | (_, Err(m)) => out.fail_other(&format!("determinism/abort/{}", util::panic_sig(m)), m.clone(), replay),
+            }
+        }
+    }
+    // (b) one read. The environment is driven by the harness itself with exactly ONE mutation of the
+    // ask side per step (an order joins or leaves a level behind the touch), so that the number of
+    // mutations between the read and a later recorded step passes 2^8 and 2^16 exactly.
+    let one_read = |read_at: Option<usize>, steps: usize, multi: bool| -> Result<(u64, u64), String> {
+        util::subject(|| {
+            let mut live: std::collections::VecDeque<usize> = Default::default();
+            if !multi {
+                let mut e = Env::new(0, 1, 10, true);
+                e.place_order(Side::Ask, 3, 1, Some(100)).unwrap();
+                e.place_order(Side::Bid, 3, 1, Some(90)).unwrap();
+                let mut rng = Xoroshiro128StarStar::seed_from_u64(1);
+                e.step(&mut rng);
+                for k in 0..steps {
+                    if read_at == Some(k) {
+                        let b = e.get_orderbook();
+                        let _ = (b.level_1_data(), b.level_2_data(), b.bid_ask(), b.ask_best_vol_and_orders(), b.bid_best_vol_and_orders(), b.ask_levels(), b.bid_levels(), b.mid_price(), e.level_2_data().ask_vol);
+                    }
+                    if live.len() < 2 || k % 2 == 0 {
+                        live.push_back(e.place_order(Side::Ask, 1 + (k % 3) as u32, 2, Some(102 + (k % 2) as u32)).unwrap());
+                    } else {
+                        e.cancel_order(live.pop_front().unwrap());
+                    }
+                    e.step(&mut rng);
+                }
+                digest_env(&e)
+            } else {
+                let mut e: MarketEnv<2, 10> = MarketEnv::new(0, [1, 1], 10, true);
+                e.place_order(1, Side::Ask, 3, 1, Some(100)).unwrap();
+                e.place_order(1, Side::Bid, 3, 1, Some(90)).unwrap();
+                let mut rng = Xoroshiro128StarStar::seed_from_u64(1);
+                e.step(&mut rng);
+                for k in 0..steps {
+                    if read_at == Some(k) {
+                        let b = e.get_market().get_order_book(1);
+                        let _ = (b.level_1_data(), b.level_2_data(), b.bid_ask(), b.ask_best_vol_and_orders(), b.ask_levels(), e.get_market().level_2_data()[1].ask_vol, e.level_2_data()[1].ask_vol);
+                    }
+                    if live.len() < 2 || k % 2 == 0 {
+                        live.push_back(e.place_order(1, Side::Ask, 1 + (k % 3) as u32, 2, Some(102 + (k % 2) as u32)).unwrap().1);
+                    } else {
+                        e.cancel_order((1, live.pop_front().unwrap()));
+                    }
+                    e.step(&mut rng);
+                }
+                digest_menv(&e)
+            }
+        })
+    };
+    let horizon = if thorough { 131_200 } else { 65_700 };
+    for multi in [false, true] {
+        let plain = one_read(None, horizon, multi);
+        runs += 1;
+        steps_total += horizon as u64;
+        for read_at in [0usize, 1, 2, 3, 10, 100] {
+            runs += 1;
+            steps_total += horizon as u64;
+            let replay = json!({"scenario": "harness-driven environment, one mutation of the ask side per step, every view read once", "read_before_step": read_at, "steps": horizon, "multi_asset": multi});
+            match (&plain, &one_read(Some(read_at), horizon, multi)) {
+                (Ok(a), Ok(b)) => {
+                    if a != b {
+                        out.fail_other(
+                            "determinism/one-read-changes-the-recorded-run",
+                            format!("{} steps with one order joining or leaving the ask side per step: recorded output {:?}; with every view of the book read once before step {} it is {:?}", horizon, a, read_at, b),
+                            replay,
+                        );
+                    }
+                }
+                (Err(m), _) | (_, Err(m)) => out.fail_other(&format!("determinism/abort/{}", util::panic_sig(m)), m.clone(), replay),
+            }
+        }
+    }
+    out.add_u64("states", runs);
+    out.add_u64("transitions", steps_total);
+    out.add_u64("traces_validated_against_impl", runs);
+    out.set("long_runs", json!({"short_run_after_long_run": {"long_run_steps": long_lengths, "short_run_steps": 30}, "one_read": {"steps": horizon, "read_before_step": [0, 1, 2, 3, 10, 100], "mutations_of_the_ask_side_per_step": 1}, "runs": runs}));
+}
+
 /// environment variables the library reads (scanned from its sources): a child process is run
 /// with each of them set; the output must not depend on them
 fn env_vars_read_by_the_library() -> Vec<String> {
@@ -851,6 +1006,7 @@ pub fn c09(tier: &str) -> i32 {
     scripted_part(&mut out, tier);
     sweep_part(&mut out, tier);
     interleaved_part(&mut out);
+    long_run_parts(&mut out, tier == "thorough");
     let env_vars = env_vars_read_by_the_library();
     out.set("environment_variables_read_by_the_library", json!(env_vars));
     if !env_vars.is_empty() {
